@@ -18,6 +18,7 @@ type FaultCfg struct {
 	AfterHandshake bool   // only once both constructors have returned
 	Max            int    // at most this many fault actions per execution (0 = budget only)
 	Only           string // restrict to one link ("c2s"/"s2c")
+	SendErr        bool   // a transient write error: one call of a send function fails
 }
 
 // Scenario describes one closed system.
@@ -234,7 +235,7 @@ func common(sc *Scenario, p params) {
 	// only advances when no thread can run, unless the scenario asks for
 	// starvation deviations.
 	sc.Cfg.NoStarve = !p.has("starve")
-	sc.Faults = FaultCfg{Drop: true, Dup: true, AfterHandshake: !p.has("hsfaults")}
+	sc.Faults = FaultCfg{Drop: true, Dup: true, AfterHandshake: !p.has("hsfaults"), SendErr: p.has("senderr")}
 	sc.ServerFirst = p.has("serverfirst")
 	sc.FreeLoss = p.int("freeloss", 0)
 }
@@ -787,6 +788,12 @@ func init() {
 					w.blackholeAt = w.s.Now()
 					w.faultsUsed++
 					for _, l := range []*Link{w.c2s, w.s2c} {
+						// onedir=<link>: only that direction goes
+						// silent; the other one keeps working, so the
+						// side that gives up can still tell its peer
+						if od := p["onedir"]; od != "" && od != l.name {
+							continue
+						}
 						l.mu.Lock()
 						l.blackhole = true
 						l.inflight = nil
@@ -809,6 +816,9 @@ func init() {
 					maxPing = sc.PingS
 				}
 				if (sc.PingC > 0 && w.C.closedAt < 0) || (sc.PingS > 0 && w.S.closedAt < 0) {
+					all = false
+				}
+				if p.has("onedir") && (w.C.closedAt < 0 || w.S.closedAt < 0) {
 					all = false
 				}
 				if all {
